@@ -34,6 +34,8 @@ QDECLS = [
     {'name': 'EmbeddedInstance', 'ty': 'string', 'scopes': ['method', 'parameter', 'property'], 'body': 0},
     {'name': 'Extra1', 'ty': 'boolean', 'scopes': ['class'], 'body': 1},
     {'name': 'Extra2', 'ty': 'string', 'scopes': ['property'], 'body': 0},
+    {'name': 'Override', 'ty': 'string', 'scopes': ['method', 'property', 'reference'], 'body': 0},
+    {'name': 'IN', 'ty': 'boolean', 'scopes': ['parameter'], 'body': 2},
 ]
 ALL_SCOPES = ('CLASS', 'ASSOCIATION', 'INDICATION', 'PROPERTY', 'REFERENCE', 'METHOD', 'PARAMETER', 'ANY')
 BODY_VALUES = {('boolean', 0): None, ('boolean', 1): False, ('boolean', 2): True,
@@ -52,8 +54,17 @@ def pdef(name, ty='string', arr=False, ref=None, quals=()):
     return {'name': name, 'ty': ty, 'arr': arr, 'ref': ref, 'quals': list(quals)}
 
 
-def cdef(name, sup=None, quals=(), props=()):
-    return {'name': name, 'super': sup, 'quals': list(quals), 'props': list(props)}
+def cdef(name, sup=None, quals=(), props=(), methods=()):
+    return {'name': name, 'super': sup, 'quals': list(quals), 'props': list(props), 'methods': list(methods)}
+
+
+def mdef(name, ret='uint32', quals=(), params=()):
+    return {'name': name, 'ret': ret, 'quals': list(quals), 'params': list(params)}
+
+
+def unq(quals):
+    """qualifiers of a stored class element as input qualifiers (without the resolved flags)"""
+    return [{'name': u['name'], 'ty': u['ty'], 'val': u['val']} for u in quals]
 
 
 def pv(name, ty, val, arr=False):
@@ -87,8 +98,14 @@ def py_class(c):
     for p in c['props']:
         props.append(pywbem.CIMProperty(p['name'], None, type=p['ty'], is_array=p['arr'],
                                         reference_class=p['ref'], qualifiers=[py_qualuse(u) for u in p['quals']]))
+    methods = []
+    for m in c.get('methods', []):
+        params = [pywbem.CIMParameter(p['name'], p['ty'], is_array=p['arr'], reference_class=p['ref'],
+                                      qualifiers=[py_qualuse(u) for u in p['quals']]) for p in m['params']]
+        methods.append(pywbem.CIMMethod(m['name'], m['ret'], parameters=params,
+                                        qualifiers=[py_qualuse(u) for u in m['quals']]))
     return pywbem.CIMClass(c['name'], superclass=c['super'], qualifiers=[py_qualuse(u) for u in c['quals']],
-                           properties=props)
+                           properties=props, methods=methods)
 
 
 def py_qualdecl(d):
@@ -155,6 +172,14 @@ def mof_class(c):
             out.append('  %s%s REF %s;' % (mof_quals(p['quals']), p['ref'], p['name']))
         else:
             out.append('  %s%s %s%s;' % (mof_quals(p['quals']), p['ty'], p['name'], '[]' if p['arr'] else ''))
+    for m in c.get('methods', []):
+        params = []
+        for p in m['params']:
+            if p['ty'] == 'reference':
+                params.append('%s%s REF %s' % (mof_quals(p['quals']), p['ref'], p['name']))
+            else:
+                params.append('%s%s %s%s' % (mof_quals(p['quals']), p['ty'], p['name'], '[]' if p['arr'] else ''))
+        out.append('  %s%s %s(%s);' % (mof_quals(m['quals']), m['ret'], m['name'], ', '.join(params)))
     out.append('};')
     return '\n'.join(out)
 
@@ -242,7 +267,8 @@ def py_obj(o):
 # --------------------------------------------------------------------------- real repository -> abstract / full dump
 
 def abs_quse(u):
-    return {'name': u.name, 'ty': u.type, 'val': u.value if isinstance(u.value, str) else None}
+    return {'name': u.name, 'ty': u.type, 'val': u.value if isinstance(u.value, str) else None,
+            'propagated': bool(u.propagated)}
 
 
 def abs_scalar(v):
@@ -284,7 +310,15 @@ def abstract_state(conn):
                                        'ref': p.reference_class,
                                        'quals': [abs_quse(u) for u in p.qualifiers.values()],
                                        'origin': p.class_origin, 'propagated': bool(p.propagated)}
-                                      for p in c.properties.values()]})
+                                      for p in c.properties.values()],
+                            'methods': [{'name': m.name, 'ret': m.return_type,
+                                         'quals': [abs_quse(u) for u in m.qualifiers.values()],
+                                         'params': [{'name': p.name, 'ty': p.type, 'arr': bool(p.is_array),
+                                                     'ref': p.reference_class,
+                                                     'quals': [abs_quse(u) for u in p.qualifiers.values()]}
+                                                    for p in m.parameters.values()],
+                                         'origin': m.class_origin, 'propagated': bool(m.propagated)}
+                                        for m in c.methods.values()]})
         quals = []
         for d in rep.get_qualifier_store(ns).iter_values(copy=False):
             quals.append({'name': d.name, 'ty': d.type,
@@ -367,6 +401,8 @@ def real_op(conn, op):
             conn.ModifyInstance(i, PropertyList=list(op['pl']))
         else:
             conn.ModifyInstance(i)
+    elif k == 'installUserProvider':
+        conn.register_provider(make_user_provider(conn, op), namespaces=[ns])
     elif k == 'installNsProvider':
         import pywbem_mock
         conn.register_provider(pywbem_mock.CIMNamespaceProvider(conn.cimrepository), namespaces=[ns])
@@ -403,6 +439,42 @@ def real_op(conn, op):
             shutil.rmtree(tmpdir, ignore_errors=True)
     else:
         raise ValueError(op)
+
+
+def make_user_provider(conn, op):
+    """a user-defined instance-write provider that rejects (with a non-pywbem exception or a CIMError) requests whose
+    trigger property / keybinding has one of the listed values and otherwise delegates to the default implementation"""
+    import pywbem
+    import pywbem_mock
+
+    def boom():
+        if op['exc'] == 'CIMError':
+            return pywbem.CIMError(op['code'], 'rejected by user-defined provider')
+        return {'ValueError': ValueError, 'TypeError': TypeError, 'KeyError': KeyError, 'OSError': OSError}[op['exc']](
+            'rejected by user-defined provider')
+
+    class RejectingProvider(pywbem_mock.InstanceWriteProvider):
+        provider_classnames = op['cls']
+
+        def __init__(self, cimrepository):
+            super().__init__(cimrepository)
+
+        def CreateInstance(self, namespace, new_instance):
+            if op['trigger'] in new_instance and new_instance[op['trigger']] in op['rej_create']:
+                raise boom()
+            return super().CreateInstance(namespace, new_instance)
+
+        def ModifyInstance(self, modified_instance, IncludeQualifiers=None):
+            if modified_instance.path.keybindings.get(op['trigger']) in op['rej_modify']:
+                raise boom()
+            return super().ModifyInstance(modified_instance, IncludeQualifiers=IncludeQualifiers)
+
+        def DeleteInstance(self, InstanceName):
+            if InstanceName.keybindings.get(op['trigger']) in op['rej_delete']:
+                raise boom()
+            return super().DeleteInstance(InstanceName)
+
+    return RejectingProvider(conn.cimrepository)
 
 
 def op_sig(op, exc):
@@ -465,6 +537,7 @@ class Gen:
         self.n = 0
         self.thorough = thorough
         self.nsprov = None      # Interop namespace the CIM_Namespace provider is registered for, if any
+        self.userprov = None    # installUserProvider op of the registered user-defined provider, if any
 
     def fresh(self, pre):
         self.n += 1
@@ -515,7 +588,23 @@ class Gen:
             quals.append(q('Description', 'string', 'd'))
         if self.rng.random() < 0.15:
             quals.append(q('Extra1'))
-        return cdef(name, sup, quals, props)
+        methods = []
+        if self.rng.random() < 0.35:
+            for _ in range(self.rng.choice([1, 1, 2])):
+                methods.append(self.new_method(n))
+        return cdef(name, sup, quals, props, methods)
+
+    def new_method(self, n, name=None):
+        rng = self.rng
+        params = []
+        for _ in range(rng.choice([0, 1, 2])):
+            params.append(pdef(self.fresh('a'), rng.choice(['string', 'uint32']), arr=rng.random() < 0.2,
+                               quals=[q('IN')] if rng.random() < 0.5 else []))
+        plain = [c for c in n['classes'] if not self.is_assoc(c)] if n else []
+        if plain and rng.random() < 0.3:
+            params.append(pdef(self.fresh('r'), 'reference', ref=rng.choice(plain)['name']))
+        return mdef(name or self.fresh('Meth'), rng.choice(['uint32', 'string', 'uint32']),
+                    [q('Description', 'string', 'm')] if rng.random() < 0.3 else [], params)
 
     def new_assoc(self, n, key_refs=True):
         plain = [c for c in n['classes'] if not self.is_assoc(c) and self.keyprops(c)]
@@ -853,7 +942,10 @@ class Gen:
         reason = rng.choice(['ok', 'ok', 'ok_sub', 'ok_assoc', 'ok_assoc_sub', 'bad_ns', 'exists', 'nosuper',
                              'missing_ref', 'missing_emb', 'assoc_sub_nonassoc', 'ref_in_nonassoc',
                              'undeclared_qual', 'undeclared_prop_qual', 'qual_type', 'qual_scope', 'dup_prop',
-                             'self_ref'])
+                             'self_ref', 'ok_method', 'method_missing_ref', 'method_undeclared_qual', 'param_qual_scope',
+                             'dup_method', 'ok_override_prop', 'ok_override_prop', 'override_type_mismatch',
+                             'override_missing_name', 'ok_override_other_name', 'ok_override_method',
+                             'override_method_params_differ', 'override_method_rettype', 'override_method_missing'])
         c = None
         if reason == 'ok':
             c = self.new_class(n)
@@ -908,6 +1000,68 @@ class Gen:
             name = self.fresh('TA_')
             c = cdef(name, None, [ASSOCQ], [pdef('left', 'reference', ref=name, quals=[KEYQ]),
                                             pdef('right', 'reference', ref=name.lower(), quals=[KEYQ])])
+        elif reason == 'ok_method':
+            c = self.new_class(n)
+            c['methods'].append(self.new_method(n))
+        elif reason == 'method_missing_ref':
+            c = self.new_class(n)
+            m = self.new_method(n)
+            m['params'].append(pdef('r', 'reference', ref='TC_Nope'))
+            c['methods'].append(m)
+        elif reason == 'method_undeclared_qual':
+            c = self.new_class(n)
+            m = self.new_method(n)
+            m['quals'].append(q('NoSuchQual'))
+            c['methods'].append(m)
+        elif reason == 'param_qual_scope':
+            c = self.new_class(n)
+            m = self.new_method(n)
+            m['params'].append(pdef('pp', 'string', quals=[q('Key')]))
+            c['methods'].append(m)
+        elif reason.startswith('ok_override') or reason.startswith('override') or reason == 'dup_method':
+            with_m = [x for x in plain if x.get('methods')]
+            if 'method' in reason:
+                if not with_m:
+                    return None
+                sup = rng.choice(with_m)
+                sm = rng.choice(sup['methods'])
+                c = self.new_class(n, sup['name'])
+                c['methods'] = []
+                ov = [q('Override', 'string', recase(rng, sm['name']))]
+                params = [pdef(recase(rng, p['name']), p['ty'], p['arr'], p['ref'], []) for p in sm['params']]
+                m = mdef(recase(rng, sm['name']), sm['ret'], ov + ([q('Description', 'string', 'o')] if rng.random() < 0.4 else []),
+                         params)
+                if reason == 'dup_method':
+                    m['quals'] = []
+                elif reason == 'override_method_params_differ':
+                    if params and rng.random() < 0.5:
+                        m['params'] = params[:-1]
+                    else:
+                        m['params'] = params + [pdef('extra', 'string')]
+                elif reason == 'override_method_rettype':
+                    m['ret'] = 'string' if sm['ret'] != 'string' else 'uint32'
+                elif reason == 'override_method_missing':
+                    m['quals'] = [q('Override', 'string', 'NoSuchMethod')]
+                c['methods'].append(m)
+            else:
+                cands = [(x, p) for x in plain for p in x['props'] if p['ty'] in ('string', 'uint32') and not p['arr']]
+                if not cands:
+                    return None
+                sup, sp = rng.choice(cands)
+                c = self.new_class(n, sup['name'])
+                newp = pdef(recase(rng, sp['name']), sp['ty'], quals=[q('Override', 'string', recase(rng, sp['name']))] +
+                            ([q('Description', 'string', 'o')] if rng.random() < 0.4 else []))
+                if reason == 'override_type_mismatch':
+                    newp['ty'] = 'uint32' if sp['ty'] == 'string' else 'string'
+                elif reason == 'override_missing_name':
+                    newp['quals'][0] = q('Override', 'string', 'nosuchprop')
+                elif reason == 'ok_override_other_name':
+                    others = [p for p in sup['props'] if p['name'].lower() != sp['name'].lower() and p['ty'] == sp['ty']
+                              and not p['arr']]
+                    if not others:
+                        return None
+                    newp['quals'][0] = q('Override', 'string', rng.choice(others)['name'])
+                c['props'].append(newp)
         if c is None:
             return None
         return {'op': 'createClass', 'ns': ns, 'cls': c, 'reason': reason}
@@ -924,8 +1078,11 @@ class Gen:
 
         def redefine(c):
             """class definition with the own properties of stored class c (+ one new)"""
-            own = [pdef(p['name'], p['ty'], p['arr'], p['ref'], p['quals']) for p in c['props'] if not p['propagated']]
-            return cdef(recase(rng, c['name']), c['super'], c['quals'], own + [pdef(self.fresh('m'), 'string')])
+            own = [pdef(p['name'], p['ty'], p['arr'], p['ref'], unq(p['quals'])) for p in c['props'] if not p['propagated']]
+            ownm = [mdef(m['name'], m['ret'], unq(m['quals']),
+                         [pdef(p['name'], p['ty'], p['arr'], p['ref'], unq(p['quals'])) for p in m['params']])
+                    for m in c.get('methods', []) if not m['propagated']]
+            return cdef(recase(rng, c['name']), c['super'], unq(c['quals']), own + [pdef(self.fresh('m'), 'string')], ownm)
         c = None
         if reason == 'ok' and leafs:
             c = redefine(rng.choice(leafs))
@@ -1006,6 +1163,10 @@ class Gen:
             used |= {u['name'].lower() for u in c['quals']}
             for p in c['props']:
                 used |= {u['name'].lower() for u in p['quals']}
+            for m in c.get('methods', []):
+                used |= {u['name'].lower() for u in m['quals']}
+                for p in m['params']:
+                    used |= {u['name'].lower() for u in p['quals']}
         reason = rng.choice(['ok', 'in_use', 'notfound', 'bad_ns'])
         name = None
         if reason == 'ok':
@@ -1215,6 +1376,70 @@ class Gen:
             pl = sub + [recase(rng, rng.choice(present))]
         op['pl'] = pl
         op['reason'] = op['reason'] + ':pl_' + kind
+
+    # ---- user-defined providers
+    def userprov_setup(self, st):
+        """register a rejecting provider for a plain root class (key property k) in one namespace"""
+        rng = self.rng
+        cands = [(n, c) for n in st['nss'] for c in n['classes']
+                 if not self.is_assoc(c) and c['super'] is None and [p['name'] for p in self.keyprops(c)] == ['k']
+                 and c['name'].lower() != self.NSCLASS.lower()]
+        if not cands:
+            return None
+        n, c = rng.choice(cands)
+        exc = rng.choice([('ValueError', None), ('TypeError', None), ('KeyError', None), ('OSError', None),
+                          ('CIMError', 1), ('CIMError', 4)])
+        op = {'op': 'installUserProvider', 'ns': n['name'], 'cls': c['name'], 'trigger': 'k',
+              'rej_create': ['rejC1', 'rejC2'], 'rej_modify': ['rejM1', 'rejM2'], 'rej_delete': ['rejD1', 'rejD2'],
+              'exc': exc[0], 'code': exc[1], 'reason': 'setup'}
+        self.userprov = op
+        return op
+
+    def g_userprov(self, st):
+        rng = self.rng
+        u = self.userprov
+        n = self.find_ns(st, u['ns'])
+        c = self.find_class(n, u['cls']) if n else None
+        if c is None:
+            return None
+        ns = n['name'] if rng.random() < 0.7 else recase(rng, n['name'])
+        existing = {v['s'] for x in self.insts_of(n, c['name']) for k, v in x['path']['keys'] if v and 's' in v}
+        reason = rng.choice(['create_rejected', 'create_rejected', 'seed', 'seed', 'seed', 'modify_rejected', 'delete_rejected',
+                             'modify_ok', 'delete_ok', 'delete_class', 'mof_rejected', 'mof_rejected'])
+        if reason == 'create_rejected':
+            return {'op': 'createInstance', 'ns': ns, 'inst': self.inst_for(n, c, keyval=rng.choice(u['rej_create'])),
+                    'reason': 'userprov_' + reason}
+        if reason == 'seed':
+            cand = [v for v in u['rej_modify'] + u['rej_delete'] + [self.fresh('u')] if v not in existing]
+            return {'op': 'createInstance', 'ns': ns, 'inst': self.inst_for(n, c, keyval=rng.choice(cand)),
+                    'reason': 'userprov_seed'}
+        if reason == 'delete_class':
+            return {'op': 'deleteClass', 'ns': ns, 'name': recase(rng, c['name']), 'reason': 'userprov_delete_class'}
+        if reason == 'mof_rejected':
+            m = rng.choice([1, 2, 3])
+            prods = self.valid_prods(st, n, m)
+            bad = self.inst_for(n, c, keyval=rng.choice(u['rej_create']))
+            bad['cls'] = c['name']
+            for p in bad['props']:
+                p['name'] = [z for z in c['props'] if z['name'].lower() == p['name'].lower()][0]['name']
+            k = rng.randint(0, len(prods))
+            return {'op': 'compileMof', 'ns': ns, 'prods': prods[:k] + [{'k': 'inst', 'inst': bad}] + prods[k:],
+                    'reason': 'userprov_mof_rejected', 'fail_pos': k + 1, 'via': rng.choice(['string', 'file'])}
+        want = {'modify_rejected': u['rej_modify'], 'delete_rejected': u['rej_delete']}.get(reason)
+        cands = [x for x in self.insts_of(n, c['name'])
+                 if any(v and 's' in v and ((v['s'] in want) if want is not None else
+                                            (v['s'] not in u['rej_modify'] + u['rej_delete'])) for k, v in x['path']['keys'])]
+        if not cands:
+            return None
+        x = rng.choice(cands)
+        path = {'cls': recase(rng, x['path']['cls']), 'ns': None, 'keys': [[recase(rng, k), v] for k, v in x['path']['keys']]}
+        if reason.startswith('delete'):
+            return {'op': 'deleteInstance', 'ns': ns, 'path': path, 'reason': 'userprov_' + reason}
+        nonkey = [p for p in c['props'] if p['name'].lower() != 'k' and p['ty'] in ('string', 'uint32') and not p['arr']
+                  and not any(q_['name'].lower() == 'embeddedinstance' for q_ in p['quals'])]
+        props = [pv(p['name'], p['ty'], sval(self.fresh('s')) if p['ty'] == 'string' else ival(rng.randint(0, 9))) for p in nonkey]
+        return {'op': 'modifyInstance', 'ns': ns, 'path': path, 'inst': {'cls': x['cls'], 'props': props},
+                'reason': 'userprov_' + reason}
 
     # ---- the CIM_Namespace provider
     NSCLASS = 'CIM_Namespace'
@@ -1690,7 +1915,8 @@ class Gen:
 
 def model_op(op):
     """strip harness-only fields"""
-    return {k: v for k, v in op.items() if k not in ('reason', 'fail_pos', 'via', 'keep_cache')}
+    return {k: v for k, v in op.items() if k not in ('reason', 'fail_pos', 'via', 'keep_cache') and
+            not (k == 'code' and v is None)}
 
 
 def run_history(seed, thorough, nops, keep_cache=False):
@@ -1728,12 +1954,18 @@ def run_history(seed, thorough, nops, keep_cache=False):
     if rng.random() < 0.45:
         for op in g.nsprov_setup(rng.choice(['interop', 'interop', 'root/interop', 'root/PG_Interop'])):
             do(op)
+    if rng.random() < 0.5:
+        op = g.userprov_setup(states[-1])
+        if op is not None:
+            do(op)
     for _ in range(nops):
         r = rng.random()
         op = None
         if g.nsprov is not None and r < 0.2:
             op = g.g_nsprov(states[-1])
-        elif r < 0.4:
+        elif g.userprov is not None and 0.2 <= r < 0.38:
+            op = g.g_userprov(states[-1])
+        elif 0.38 <= r < 0.55:
             op = g.next_assoc_op(states[-1])
         if op is None:
             op = g.next_op(states[-1])
@@ -1993,7 +2225,7 @@ def canon(x):
 def run(run):
     _register_module()
     rng = run.rng
-    n_hist = 260 if run.thorough else 36
+    n_hist = 220 if run.thorough else 36
     nops = 60 if run.thorough else 45
     run.rule = ('seeded operation histories: repository of 2-3 namespaces built by the history itself (qualifier '
                 'declarations and a random class forest with associations / EmbeddedInstance / Indication classes via '
